@@ -10,6 +10,7 @@ from ..engine.mutate import Mutant, Variant, in_function, replace_once
 from ..engine.runner import Rule
 from ..engine.source import AnalysisError
 from ..engine.sqlfront import all_where_clauses, split_conjuncts
+from . import C07
 from . import shared
 from .common import callee_name, calls_in, kwarg
 
@@ -315,6 +316,7 @@ def rule_rerun_starts_clean(ctx):
 
 
 RULES = [
+    Rule("R-C01-11", "a reverted optional step forgets what its run amended (same end state as a build that never ran it)", C07.rule_revert_forgets_run, min_instances=5),
     Rule("R-C01-10", "a rerun starts from the declaration", rule_rerun_starts_clean, min_instances=9),
     Rule("R-C01-1", "staleness reaches memories (detached-inclusive selectors)", rule_staleness_reaches_memories, min_instances=8),
     Rule("R-C01-2", "skip only after both digests matched", rule_skip_after_digests, min_instances=7),
